@@ -44,7 +44,7 @@ def neededKeys (K fromK : Nat) (plans : List (List Bool)) (rows : List Ice.WRow)
   (List.zipWith (fun g (r : Ice.WRow) =>
     ((List.range K).filter (fun k => decide (fromK ≤ k))).map fun k => (g.take (k + 1), r.ls.take (k + 1))) plans rows).flatten
 
-def parsePlan (a : Args) : Except String Ice.Plan := do
+def parsePlan_C12 (a : Args) : Except String Ice.Plan := do
   let kind ← need a "plan" some
   let g ← bools a "g"
   if kind == "single" then pure (.single g)
@@ -69,7 +69,7 @@ def opIceFit (a : Args) : Except String String := do
   let nexp ← need a "nexp" parseNat
   let nout ← need a "nout" parseNat
   let spec ← need a "spec" parseBool
-  let plan ← parsePlan a
+  let plan ← parsePlan_C12 a
   let tab ← muTable a
   match Ice.construct rows nexp nout with
   | .error e => pure ("err " ++ showErr e)
@@ -89,7 +89,7 @@ def opIceFit (a : Args) : Except String String := do
 def opIceQ (a : Args) : Except String String := do
   let (K, rows) ← wideArgs a
   let k ← need a "k" parseNat
-  let plan ← parsePlan a
+  let plan ← parsePlan_C12 a
   let tab ← muTable a
   match Ice.expandPlan rows.length K plan with
   | .error e => pure ("err " ++ showErr e)
